@@ -12,18 +12,18 @@ def ratSqrt (x : Rat) : Rat :=
 def isRatSquare (x : Rat) : Bool :=
   decide (0 ≤ x.num) && Nat.sqrt x.num.toNat * Nat.sqrt x.num.toNat == x.num.toNat && Nat.sqrt x.den * Nat.sqrt x.den == x.den
 
-def ratAbs (x : Rat) : Rat := if x < 0 then -x else x
-def ratGt (a b : Rat) : Bool := decide (b < a)
+private def ratAbs (x : Rat) : Rat := if x < 0 then -x else x
+private def ratGt (a b : Rat) : Bool := decide (b < a)
 
-def parseRat (s : String) : Option Rat :=
+private def parseRat (s : String) : Option Rat :=
   match s.splitOn "/" with
   | [a] => a.toInt?.map (fun n => (n : Rat))
   | [a, b] => do let n ← a.toInt?; let d ← b.toNat?; if d = 0 then none else some (mkRat n d)
   | _ => none
 
-def showRat (x : Rat) : String := if x.den = 1 then toString x.num else s!"{x.num}/{x.den}"
+private def showRat (x : Rat) : String := if x.den = 1 then toString x.num else s!"{x.num}/{x.den}"
 
-def showMat (n : Nat) (X : Mat Rat) : String :=
+private def showMat (n : Nat) (X : Mat Rat) : String :=
   ",".intercalate ((List.range (n * n)).map (fun p => showRat (X (p / n) (p % n))))
 
 /-- a matrix given by its row-major entries, frozen into an array so that reads are O(1) -/
